@@ -145,7 +145,16 @@ func genC17(t *rapid.T) *C17Case {
 		gr := g.group("Other Options", used, 1)
 		if rapid.Bool().Draw(t, "nestedGroup") {
 			sub := g.group("Nested Group", used, 1)
-			sub.Namespace = c17Word(t, "ns", 1, 6)
+			if rapid.IntRange(0, 3).Draw(t, "subNs") > 0 {
+				sub.Namespace = c17Word(t, "ns", 1, 10)
+			}
+			if rapid.Bool().Draw(t, "deeperGroup") {
+				sub2 := g.group("Deeper Group", used, 1)
+				if rapid.Bool().Draw(t, "sub2Ns") {
+					sub2.Namespace = c17Word(t, "ns2", 1, 10)
+				}
+				sub.Groups = append(sub.Groups, sub2)
+			}
 			gr.Groups = append(gr.Groups, sub)
 		}
 		d.Root.G.Groups = append(d.Root.G.Groups, gr)
